@@ -5,7 +5,9 @@ EXTENDS Integers, Sequences, TLC, Json, IOUtils
 Traces == ndJsonDeserialize(IOEnv.TRACE_FILE)
 VARIABLES tid, l, verdict
 T == Traces[tid]
-Judge(e) == IF e[5] # e[3] THEN (IF e[7] THEN "C11.NodeLine" ELSE "C11.HistoryDependent")
+\* whether a text is accepted depends on the text alone: a well-formed one (true line # -1) is never rejected, a malformed one never accepted
+Judge(e) == IF (e[5] = -1) # (e[3] = -1) THEN (IF e[5] = -1 THEN "C10.RejectedWellFormed" ELSE "C10.AcceptedMalformed")
+            ELSE IF e[5] # e[3] THEN (IF e[7] THEN "C11.NodeLine" ELSE "C11.HistoryDependent")
             ELSE IF e[6] # e[4] THEN "C16.VersionSticky" ELSE "ok"
 Init == tid \in 1..Len(Traces) /\ l = 1 /\ verdict = "ok"
 Next == l <= Len(T.ev) /\ verdict = "ok" /\ l' = l + 1 /\ verdict' = Judge(T.ev[l]) /\ UNCHANGED tid
